@@ -89,12 +89,22 @@ LibDef(name) ==
                         <<"list", << <<"cons", V(103), V(104)>>, <<"cons", V(103), V(105)>> >>>> >>,
                 <<"conj", << <<"neq", V(103), V(1)>>, <<"call", "rember", <<V(1), V(104), V(105)>>>> >> >> >> >> >>]
     [] name = "permute" ->
+         (* CORRECTED (DESIGN 8 item 11): the pinned code removes x from yl with `rember`, which is
+            the identity when x is absent, so it also relates a list to its sub-multisets; the
+            intended relation takes x OUT of yl (select). *)
          [params |-> <<1, 2>>, locals |-> <<101, 102, 103, 104>>,
           body |-> <<"conde", <<
              << <<"eq", <<"list", <<V(1), V(2)>>>>, <<"list", << <<"nil">>, <<"nil">> >>>> >> >>,
              << <<"eq", <<"list", <<V(1), V(2)>>>>, <<"list", << <<"cons", V(101), V(102)>>, V(103) >>>> >>,
                 <<"fresh", <<104>>, << <<"call", "permute", <<V(102), V(104)>>>>,
-                                       <<"call", "rember", <<V(101), V(2), V(104)>>>> >> >> >> >> >>]
+                                       <<"call", "select", <<V(101), V(2), V(104)>>>> >> >> >> >> >>]
+    [] name = "select" ->    (* select(x, l, r): r is l without one occurrence of x *)
+         [params |-> <<1, 2, 3>>, locals |-> <<101, 102, 103>>,
+          body |-> <<"conde", <<
+             << <<"eq", V(2), <<"cons", V(1), V(3)>> >> >>,
+             << <<"eq", <<"list", <<V(2), V(3)>>>>,
+                        <<"list", << <<"cons", V(101), V(102)>>, <<"cons", V(101), V(103)>> >>>> >>,
+                <<"call", "select", <<V(1), V(102), V(103)>>>> >> >> >>]
     [] name = "distinct" ->
          [params |-> <<1>>, locals |-> <<101, 102, 103, 104>>,
           body |-> <<"conde", <<
